@@ -151,8 +151,19 @@ class CallGraph:
                 self._walk2(fn, s.finalbody, stack, acc, local_ctors)
                 continue
             if isinstance(s, ast.Raise) and s.exc is not None:
-                name = U(s.exc.func) if isinstance(s.exc, ast.Call) else U(s.exc)
-                acc.append(("raise", name.split(".")[-1], stack, s))
+                name = (U(s.exc.func) if isinstance(s.exc, ast.Call) else U(s.exc)).split(".")[-1]
+                if name not in self.repo.classes and name not in BUILTIN_EXC:
+                    # `raise helper(...)` / `raise error`: the class is whatever the helper returns or the handler bound
+                    resolved = None
+                    for g in self.by_name.get(name, []):
+                        for r in ast.walk(g.node):
+                            if isinstance(r, ast.Return) and isinstance(r.value, ast.Call):
+                                rn = U(r.value.func).split(".")[-1]
+                                if rn in self.repo.classes or rn in BUILTIN_EXC:
+                                    resolved = rn
+                    name = resolved
+                if name is not None:
+                    acc.append(("raise", name, stack, s))
             if isinstance(s, (ast.FunctionDef, ast.ClassDef)):
                 continue
             sub_bodies = []
